@@ -147,13 +147,37 @@ Proof.
     intros y Hy. apply chain_lower in Hy. lia.
 Qed.
 
+Lemma any_not_all m off n : any_placed m off (S n) = false -> all_placed m off (S n) = false.
+Proof. cbn. intros H. apply orb_false_iff in H. destruct H as [H _]. now rewrite H. Qed.
+
+Lemma chain_upper ps : forall s y, In y (chain_tds s ps) -> td_seq y + len_N (td_data y) <= s + len_N (concat ps).
+Proof.
+  induction ps as [|q ps IH]; intros s y; cbn; [tauto|].
+  rewrite len_N_app. intros [<-|H]; cbn; [lia|]. apply IH in H. lia.
+Qed.
+
+Lemma chain_no_retrans data0 isn ps seq (pay : bytes) :
+  data0_ok isn data0 -> seq = isn + 1 + len_N (concat ps) -> pay <> [] ->
+  is_retrans (data0 ++ chain_tds (isn + 1) ps) (mkTd seq pay) = false.
+Proof.
+  intros H0 Hs Hp. unfold is_retrans. destruct (existsb _ _) eqn:E; [|reflexivity]. exfalso.
+  apply existsb_exists in E. destruct E as (x & Hin & Hx). cbn [td_seq td_data] in Hx.
+  apply andb_true_iff in Hx. destruct Hx as [H1 H2]. apply N.eqb_eq in H1. apply bytes_eqb_eq in H2.
+  apply in_app_or in Hin. destruct Hin as [Hin|Hin].
+  - destruct H0 as [-> | ->]; [destruct Hin|]. destruct Hin as [<-|[]]. cbn in H1. lia.
+  - apply chain_upper in Hin. rewrite H2 in Hin.
+    assert (0 < len_N pay) by (unfold len_N; destruct pay; [congruence | cbn; lia]). lia.
+Qed.
+
 Lemma dir_advance data0 d isn tds seq pay :
   data0_ok isn data0 -> seq < two32 -> pay <> [] -> d_done d = false ->
   drel data0 d isn tds -> classify_dir_strict d isn seq pay = (false, false, false) ->
   let m := place (d_map d) (seq_offset isn seq) pay in
   let n := (d_recv d + length pay)%nat in
   full_data (tds ++ [mkTd seq pay]) = prefix_from m n 0 /\
-  forall done, drel data0 (mkDir (d_isn d) m n done (d_segs d ++ [(seq_offset isn seq, pay)])) isn (tds ++ [mkTd seq pay]).
+  (forall done, drel data0 (mkDir (d_isn d) m n done (d_segs d ++ [(seq_offset isn seq, pay)])) isn (tds ++ [mkTd seq pay])) /\
+  is_retrans tds (mkTd seq pay) = false /\
+  all_placed (d_map d) (seq_offset isn seq) (length pay) = false.
 Proof.
   intros H0 Hs Hp Hd (ps & Ht & Hm & Hr) Hc m n.
   destruct (classify_dir_strict_inorder d isn seq pay (concat ps) Hd Hm Hr Hp Hs Hc) as [Hseq Hoff].
@@ -163,9 +187,12 @@ Proof.
   { rewrite concat_app_single. subst m. rewrite Hoff. now apply map_is_place. }
   assert (Hn : n = length (concat (ps ++ [pay]))).
   { subst n. rewrite concat_app_single, app_length. lia. }
-  split.
+  split; [|split; [|split]].
   - rewrite Ht', full_data_chain by exact H0. rewrite Hn. symmetry. now apply prefix_full.
   - intros done. exists (ps ++ [pay]). cbn. auto.
+  - rewrite Ht. now apply chain_no_retrans.
+  - unfold classify_dir_strict in Hc. rewrite Hd in Hc. injection Hc as _ _ Hc.
+    destruct pay as [|b0 pay]; [congruence|]. now apply any_not_all.
 Qed.
 
 (* ------------------------------------------------------------------ keys and the wire image *)
@@ -301,6 +328,14 @@ Proof.
   - rewrite lookup_replace_other by congruence. rewrite Fr by exact N. apply R.
 Qed.
 
+(* closes goals `rst || fin && negb b = false` from the trace hypothesis on FIN/RST *)
+Ltac fin_tac H :=
+  cbn [g_rst g_fin f_cparsed f_sparsed negb andb] in *;
+  repeat match type of H with
+         | context [e_rst ?e] => destruct (e_rst e)
+         | context [e_fin ?e] => destruct (e_fin e)
+         end; cbn in *; try reflexivity; try discriminate; try congruence.
+
 Section Sim.
   Context {Req Resp : Type}.
   Variable parse_req : bytes -> option Req.
@@ -326,7 +361,7 @@ Section Sim.
   Lemma on_flow_client st id syn fin rst seq b r f :
     f_cip f = cip id -> f_cport f = cport id ->
     on_flow parse_req parse_resp st (mkSeg (cip id) sip (cport id) 80 syn fin rst seq (b :: r)) (ckey id) (ckey id) f true =
-    if negb (f_cparsed f) then
+    if negb (f_cparsed f) && negb (is_retrans (f_cdata f) (mkTd seq (b :: r))) then
       let cd := f_cdata f ++ [mkTd seq (b :: r)] in
       match parse_req (full_data cd) with
       | Some q => let f2 := mkFlow (f_cip f) (f_sip f) (f_cport f) (f_sport f) cd (f_sdata f) true (f_sparsed f) in
@@ -337,13 +372,13 @@ Section Sim.
     else (finish st (ckey id) f (mkSeg (cip id) sip (cport id) 80 syn fin rst seq (b :: r)), ONone).
   Proof.
     intros H1 H2. unfold on_flow. cbn [g_pay g_src g_sport g_seq]. rewrite H1, H2, !N.eqb_refl. cbn [andb].
-    destruct (negb (f_cparsed f)); [|reflexivity]. cbv zeta. rewrite gate_req. reflexivity.
+    destruct (negb (f_cparsed f) && _); [|reflexivity]. cbv zeta. rewrite gate_req. reflexivity.
   Qed.
 
   Lemma on_flow_server st id syn fin rst seq b r f :
     f_sip f = sip -> f_sport f = 80 ->
     on_flow parse_req parse_resp st (mkSeg sip (cip id) 80 (cport id) syn fin rst seq (b :: r)) (skey id) (ckey id) f false =
-    if negb (f_sparsed f) then
+    if negb (f_sparsed f) && negb (is_retrans (f_sdata f) (mkTd seq (b :: r))) then
       let sd := f_sdata f ++ [mkTd seq (b :: r)] in
       match parse_resp (full_data sd) with
       | Some q => let f2 := mkFlow (f_cip f) (f_sip f) (f_cport f) (f_sport f) (f_cdata f) sd (f_cparsed f) true in
@@ -354,14 +389,14 @@ Section Sim.
     else (finish st (skey id) f (mkSeg sip (cip id) 80 (cport id) syn fin rst seq (b :: r)), ONone).
   Proof.
     intros H1 H2. unfold on_flow. cbn [g_pay g_src g_sport g_seq andb]. rewrite H1, H2, !N.eqb_refl. cbn [andb].
-    destruct (negb (f_sparsed f)); [|reflexivity]. cbv zeta. rewrite gate_resp. reflexivity.
+    destruct (negb (f_sparsed f) && _); [|reflexivity]. cbv zeta. rewrite gate_resp. reflexivity.
   Qed.
 
   (* finish on a server-direction packet never changes the cache: the remove misses *)
   Lemma finish_server st id f p : keys_ok st -> finish st (skey id) f p = st.
   Proof.
     intros K. unfold finish. destruct (f_cparsed f && f_sparsed f); [now apply remove_skey|].
-    destruct (g_fin p || g_rst p); [now apply remove_skey | reflexivity].
+    destruct (g_rst p || _); [now apply remove_skey | reflexivity].
   Qed.
 
   Notation stepM := (step parse_req parse_resp).
@@ -371,6 +406,20 @@ Section Sim.
     both_done id (conn_replace c' cs) = d_done (sc_c c') && d_done (sc_s c').
   Proof. intros L H. unfold both_done. now rewrite (lookup_replace_same id cs c0 c' L H). Qed.
 
+  Lemma client_done_replace id cs c0 c' :
+    conn_lookup id cs = Some c0 -> sc_id c' = id ->
+    client_done id (conn_replace c' cs) = d_done (sc_c c').
+  Proof. intros L H. unfold client_done. now rewrite (lookup_replace_same id cs c0 c' L H). Qed.
+
+  Lemma finish_both st k f p : f_cparsed f = true -> f_sparsed f = true -> finish st k f p = cache_remove fkey_eqb st k.
+  Proof. intros H1 H2. unfold finish. now rewrite H1, H2. Qed.
+  Lemma finish_keep st k f p :
+    (f_cparsed f = false \/ f_sparsed f = false) ->
+    g_rst p || (g_fin p && negb (f_cparsed f)) = false -> finish st k f p = st.
+  Proof.
+    intros H1 H2. unfold finish. destruct (f_cparsed f), (f_sparsed f), (g_rst p), (g_fin p); cbn in *; try reflexivity; try discriminate; destruct H1; discriminate.
+  Qed.
+
   (* ---- a client data segment of a known connection ---- *)
   Lemma sim_client_data st cs e c isn d ro b r :
     Inv st cs -> conn_lookup (e_conn e) cs = Some c ->
@@ -379,7 +428,7 @@ Section Sim.
     dir_data parse_req (sc_c c) isn (e_seq e) (e_pay e) = (d, ro) ->
     let cs1 := conn_replace (mkConn (sc_id c) d (sc_s c)) cs in
     classify_dir_strict (sc_c c) isn (e_seq e) (e_pay e) = (false, false, false) ->
-    (e_fin e || e_rst e) && negb (both_done (e_conn e) cs1) = false ->
+    (e_rst e || (e_fin e && negb (client_done (e_conn e) cs1))) && negb (both_done (e_conn e) cs1) = false ->
     exists st1, stepM st (wire e) = (st1, match ro with Some q => OReq q | None => ONone end)
                 /\ Inv st1 cs1 /\ c_cap st1 = c_cap st.
   Proof.
@@ -388,7 +437,9 @@ Section Sim.
     pose proof (lookup_id _ _ _ L) as Hid.
     assert (BD : both_done id cs1 = d_done d && d_done (sc_s c)).
     { unfold cs1. erewrite both_done_replace; [reflexivity | exact L | exact Hid]. }
-    rewrite BD in Hfin. clear BD.
+    assert (CD : client_done id cs1 = d_done d).
+    { unfold cs1. erewrite client_done_replace; [reflexivity | exact L | exact Hid]. }
+    rewrite BD, CD in Hfin. clear BD CD.
     pose proof HI as (K & Len & R). specialize (R id). rewrite L in R.
     rewrite (wire_client e Hc). fold id. unfold step. cbn [g_src g_dst g_sport g_dport g_syn].
     change (cip id, sip, cport id, 80) with (ckey id). change (sip, cip id, 80, cport id) with (skey id).
@@ -398,16 +449,15 @@ Section Sim.
       unfold dir_data in Hdd.
       destruct (d_done (sc_c c)) eqn:Dc.
       + (* request already reported: the segment is discarded *)
-        injection Hdd as <- <-. rewrite F5. cbn [negb]. unfold finish. cbn [g_fin g_rst]. rewrite F5, F6. cbn [andb].
-        rewrite Dc in Hfin. cbn [andb] in Hfin.
+        injection Hdd as <- <-. rewrite F5. cbn [negb andb]. rewrite Dc in Hfin.
         destruct (d_done (sc_s c)) eqn:Ds.
-        * eexists. split; [reflexivity|]. split; [|reflexivity].
+        * rewrite finish_both; [|exact F5|exact F6]. eexists. split; [reflexivity|]. split; [|reflexivity].
           eapply Inv_replace; try eassumption.
           -- now apply keys_ok_remove.
           -- apply len_remove.
           -- intros id' N. now apply frame_remove.
           -- rewrite get_remove_ckey. cbn. auto.
-        * cbn [negb andb] in Hfin. rewrite andb_true_r in Hfin. rewrite Hfin.
+        * rewrite finish_keep; [|right; exact F6|rewrite F5; fin_tac Hfin].
           eexists. split; [reflexivity|]. split; [|reflexivity].
           eapply Inv_replace; try eassumption; [lia | reflexivity |].
           rewrite G. cbn. unfold flow_rel. cbn [sc_c sc_s]. rewrite Dc, Ds. repeat split; auto; congruence.
@@ -416,19 +466,18 @@ Section Sim.
         rewrite F5. cbn [negb]. cbv zeta.
         assert (Hne : e_pay e <> []) by (rewrite Hpay; discriminate).
         destruct (dir_advance [mkTd isn []] (sc_c c) isn (f_cdata f) (e_seq e) (e_pay e)
-                    (or_intror eq_refl) Hseq Hne Dc Hdrel Hcl) as [Hfull Hnew].
-        rewrite Hpay in Hfull, Hnew, Hdd. rewrite Hfull.
+                    (or_intror eq_refl) Hseq Hne Dc Hdrel Hcl) as (Hfull & Hnew & Hret & Hall).
+        rewrite Hpay in Hfull, Hnew, Hdd, Hret, Hall. rewrite Hall in Hdd. rewrite Hret. cbn [negb andb]. rewrite Hfull.
         destruct (parse_req (prefix_from _ _ 0)) as [q|] eqn:P.
-        * injection Hdd as <- <-. unfold finish. cbn [f_cparsed f_sparsed g_fin g_rst andb]. rewrite F6.
-          cbn [d_done andb] in Hfin.
+        * injection Hdd as <- <-. cbn [d_done] in Hfin.
           destruct (d_done (sc_s c)) eqn:Ds.
-          -- eexists. split; [reflexivity|]. split; [|reflexivity].
+          -- rewrite finish_both; [|reflexivity|exact F6]. eexists. split; [reflexivity|]. split; [|reflexivity].
              eapply Inv_replace; try eassumption.
              ++ apply keys_ok_remove. now apply keys_ok_update.
              ++ etransitivity; [apply len_remove|]. unfold set_flow. rewrite len_update. lia.
              ++ intros id' N. unfold set_flow. rewrite frame_remove by exact N. now apply frame_update.
              ++ rewrite get_remove_ckey. cbn. auto.
-          -- cbn [negb andb] in Hfin. rewrite andb_true_r in Hfin. rewrite Hfin.
+          -- rewrite finish_keep; [|right; exact F6|fin_tac Hfin].
              eexists. split; [reflexivity|]. split; [|reflexivity].
              eapply Inv_replace; try eassumption.
              ++ now apply keys_ok_update.
@@ -436,8 +485,8 @@ Section Sim.
              ++ intros id' N. now apply frame_update.
              ++ unfold set_flow. rewrite (get_update_ckey st id _ f G). cbn. unfold flow_rel. cbn.
                 rewrite Ds. repeat split; auto; try congruence. intros X. discriminate.
-        * injection Hdd as <- <-. unfold finish. cbn [f_cparsed f_sparsed g_fin g_rst andb].
-          cbn [d_done andb negb] in Hfin. rewrite andb_true_r in Hfin. rewrite Hfin.
+        * injection Hdd as <- <-. cbn [d_done] in Hfin.
+          rewrite finish_keep; [|left; reflexivity|fin_tac Hfin].
           eexists. split; [reflexivity|]. split; [|reflexivity].
           eapply Inv_replace; try eassumption.
           -- now apply keys_ok_update.
@@ -477,7 +526,7 @@ Section Sim.
       rewrite Hpay. rewrite (on_flow_server st id _ _ _ _ b r f F2 F4).
       unfold dir_data in Hdd.
       destruct (d_done (sc_s c)) eqn:Ds.
-      + injection Hdd as <- <-. rewrite F6. cbn [negb]. rewrite (finish_server st id f _ K).
+      + injection Hdd as <- <-. rewrite F6. cbn [negb andb]. rewrite (finish_server st id f _ K).
         eexists. split; [reflexivity|]. split; [|reflexivity].
         eapply Inv_replace; try eassumption; [lia | reflexivity |].
         rewrite G. cbn. unfold flow_rel. cbn [sc_c sc_s]. rewrite Ds. repeat split; auto.
@@ -485,8 +534,8 @@ Section Sim.
         rewrite F6. cbn [negb]. cbv zeta.
         assert (Hne : e_pay e <> []) by (rewrite Hpay; discriminate).
         destruct (dir_advance [] (sc_s c) isn (f_sdata f) (e_seq e) (e_pay e)
-                    (or_introl eq_refl) Hseq Hne Ds Hdrel Hcl) as [Hfull Hnew].
-        rewrite Hpay in Hfull, Hnew, Hdd. rewrite Hfull.
+                    (or_introl eq_refl) Hseq Hne Ds Hdrel Hcl) as (Hfull & Hnew & Hret & Hall).
+        rewrite Hpay in Hfull, Hnew, Hdd, Hret, Hall. rewrite Hall in Hdd. rewrite Hret. cbn [negb andb]. rewrite Hfull.
         destruct (parse_resp (prefix_from _ _ 0)) as [q|] eqn:P.
         * injection Hdd as <- <-.
           rewrite finish_server by (now apply keys_ok_update).
